@@ -81,9 +81,156 @@ let make_oracle tbl flags used =
 
 let rec nodes = function Leaf _ -> 1 | Node (_, _, l, r) -> 1 + nodes l + nodes r
 
+(* ---------------------------------------------------------------------------------------------
+   projection trees (LC, KHC): exact rational arithmetic (Qc) on the exact values of the doubles the
+   real tree stores (thresholds, normals, m_normalInvNorm as %.17g), real coordinates (data c, query h/2) *)
+let rec shl p k = if k = 0 then p else shl (XO p) (k - 1)
+let qc_of_int n = qc_make (z_of_int n) XH
+let qc_of_float (x : float) : qc =
+  if x = 0.0 then qc_make Z0 XH else begin
+    if Float.is_nan x || Float.is_integer x = false && Float.abs x = Float.infinity then failwith "non-finite value in tree dump";
+    let m, e = Float.frexp x in
+    let mi = Int64.to_int (Int64.of_float (Float.ldexp m 53)) in       (* exact: |m| 2^53 is an integer < 2^53 *)
+    let e' = e - 53 in
+    let zm = z_of_int mi in
+    if e' >= 0 then qc_make (match zm with Z0 -> Z0 | Zpos p -> Zpos (shl p e') | Zneg p -> Zneg (shl p e')) XH
+    else qc_make zm (shl XH (- e'))
+  end
+let rec pos_bits = function XH -> 1 | XO p | XI p -> 1 + pos_bits p
+let rec pos_drop p k = if k = 0 then p else match p with XH -> XH | XO p | XI p -> pos_drop p (k - 1)
+let rec float_of_pos = function XH -> 1.0 | XO p -> 2.0 *. float_of_pos p | XI p -> 2.0 *. float_of_pos p +. 1.0
+(* (mantissa, exponent): value = m * 2^e, from the top 62 bits *)
+let me_of_pos p = let n = pos_bits p in if n <= 62 then (float_of_pos p, 0) else (float_of_pos (pos_drop p (n - 62)), n - 62)
+let float_of_qc (x : qc) : float =
+  match qc_num x with
+  | Z0 -> 0.0
+  | Zpos p -> let (mn, en) = me_of_pos p and (md, ed) = me_of_pos (qc_den x) in Float.ldexp (mn /. md) (en - ed)
+  | Zneg p -> let (mn, en) = me_of_pos p and (md, ed) = me_of_pos (qc_den x) in -. Float.ldexp (mn /. md) (en - ed)
+let g17 x = Printf.sprintf "%.17g" x
+(* an exact integer (16 d^2) or num/den *)
+let str_of_qc (x : qc) : string =
+  let n = qc_num x and d = qc_den x in
+  if d = XH && (match n with Z0 -> true | Zpos p | Zneg p -> pos_bits p <= 61) then string_of_int (int_of_z n)
+  else g17 (float_of_qc x)
+
+(* approximate square root handed to the field record (used by the construction model only) *)
+let qc_sqrt (x : qc) : qc = qc_of_float (Float.sqrt (float_of_qc x))
+let fq : qc fops = qc_fops qc_sqrt
+let qadd = fq.oadd and qmul = fq.omul and qsub = fq.osub
+
+type pkind = KLc | KKhc of (qc list -> qc list -> qc)
+let parse_ptree (kind : string) (s : string) =
+  (* returns (lc tree option, khc tree option) *)
+  let n = String.length s in
+  let pos = ref 0 in
+  let expect c = if !pos < n && s.[!pos] = c then incr pos else failwith (Printf.sprintf "ptree parse: expected %c at %d in %s" c !pos s) in
+  let tok stop = let st = !pos in while !pos < n && not (String.contains stop s.[!pos]) do incr pos done; String.sub s st (!pos - st) in
+  let leaf () =
+    let l = ref [int_of_string (tok ",()")] in
+    while !pos < n && s.[!pos] = ',' do incr pos; l := int_of_string (tok ",()") :: !l done;
+    List.rev_map nat_of_int !l in
+  let rec golc () : qc lcnode ptree =
+    if s.[!pos] = 'L' then (incr pos; PLeaf (leaf ()))
+    else begin
+      expect 'N'; expect '['; let thr = float_of_string (tok ";") in expect ';';
+      let nv = List.map float_of_string (String.split_on_char ',' (tok "]")) in expect ']';
+      expect '('; let l = golc () in expect ')'; expect '('; let r = golc () in expect ')';
+      PNode ({ lc_normal = List.map qc_of_float nv; lc_thr = qc_of_float thr }, l, r)
+    end in
+  let rec gokhc () : qc khcnode ptree =
+    if s.[!pos] = 'L' then (incr pos; PLeaf (leaf ()))
+    else begin
+      expect 'N'; expect '['; let thr = float_of_string (tok ";") in expect ';';
+      let p = int_of_string (tok ";") in expect ';'; let ng = int_of_string (tok ";") in expect ';';
+      let inv = float_of_string (tok "]") in expect ']';
+      expect '('; let l = gokhc () in expect ')'; expect '('; let r = gokhc () in expect ')';
+      PNode ({ kh_pos = nat_of_int p; kh_neg = nat_of_int ng; kh_inv = qc_of_float inv; kh_thr = qc_of_float thr }, l, r)
+    end in
+  if kind = "lc" then (Some (golc ()), None) else (None, Some (gokhc ()))
+
+(* by how much the points of the real tree violate  left: funct <= threshold,  right: threshold <= funct  (0 = none) *)
+let rec pslack (funct : 'n -> qc list -> qc) (thr : 'n -> qc) (data : qc list list) (t : 'n ptree) : qc =
+  let qmax a b = if fq.oleb a b then b else a in
+  match t with
+  | PLeaf _ -> fq.o0
+  | PNode (nd, l, r) ->
+    let pts t = List.map (fun i -> List.nth data (int_of_nat i)) (pindices t) in
+    let a = List.fold_left (fun acc x -> qmax acc (fq.osub (funct nd x) (thr nd))) fq.o0 (pts l) in
+    let b = List.fold_left (fun acc x -> qmax acc (fq.osub (thr nd) (funct nd x))) fq.o0 (pts r) in
+    qmax (qmax a b) (qmax (pslack funct thr data l) (pslack funct thr data r))
+(* ---- construction of projection trees ----
+   pnth=mp:post:pre:keys;...  one entry per std::nth_element call of the real buildTree, keyed by the index SET of the node *)
+type prec = { mp : int; post : int list; pre : int list; keys : float list }
+let parse_pnth (s : string) : (int list, prec) Hashtbl.t * int =
+  let tbl = Hashtbl.create 16 in
+  let cnt = ref 0 in
+  if s <> "-" && s <> "" then
+    List.iter (fun call ->
+      match String.split_on_char ':' call with
+      | [mp; post; pre; keys] ->
+        let ints x = List.map int_of_string (String.split_on_char ',' x) in
+        let r = { mp = int_of_string mp; post = ints post; pre = ints pre; keys = List.map float_of_string (String.split_on_char ',' keys) } in
+        incr cnt; Hashtbl.replace tbl (List.sort compare r.post) r
+      | _ -> failwith ("pnth parse: " ^ call)) (String.split_on_char ';' s);
+  (tbl, !cnt)
+let close a b = Float.abs (a -. b) <= 1e-12 *. (1.0 +. Float.max (Float.abs a) (Float.abs b))
+(* the std::nth_element oracle: the recorded arrangement; also compares the recorded (double) keys with the model's keys
+   and looks for ties of the exact keys that rounding broke (or made) *)
+let make_poracle tbl flags used ftie =
+  fun (l : (qc * nat) list) ->
+    let ids = List.map (fun (_, i) -> int_of_nat i) l in
+    match Hashtbl.find_opt tbl (List.sort compare ids) with
+    | None -> flags := "MISS" :: !flags; aksort fq l
+    | Some r ->
+      incr used;
+      let assoc = List.map (fun (k, i) -> (int_of_nat i, (k, i))) l in
+      let res = List.map (fun i -> List.assoc i assoc) r.post in
+      let mpm = median_pos (nat_of_int (List.length l)) in
+      if int_of_nat mpm <> r.mp then flags := Printf.sprintf "MPOS(real=%d,model=%d,n=%d)" r.mp (int_of_nat mpm) (List.length l) :: !flags;
+      let fk = List.combine r.post r.keys in
+      List.iter (fun (k, i) -> let f = List.assoc (int_of_nat i) fk in
+                  if not (close (float_of_qc k) f) then flags := Printf.sprintf "KEY(point %d: model %.17g real %.17g)" (int_of_nat i) (float_of_qc k) f :: !flags) l;
+      (* tie pattern of exact keys vs recorded doubles *)
+      let arr = Array.of_list (List.map (fun (k, i) -> (k, List.assoc (int_of_nat i) fk)) l) in
+      let broken = ref false in
+      Array.iteri (fun a (ka, fa) -> Array.iteri (fun b (kb, fb) -> if a < b then begin
+          let eqm = fq.oleb ka kb && fq.oleb kb ka in
+          if eqm <> (fa = fb) then broken := true end) arr) arr;
+      if !broken then ftie := true
+      else if not (amedian_okb fq mpm res) then flags := Printf.sprintf "MEDIAN(n=%d)" (List.length l) :: !flags;
+      res
+(* the anchors as coded, evaluated on the order the node's points had when buildTree ran (= before std::nth_element) *)
+let make_pchoose tbl flags coded =
+  fun (elems : nat list) ->
+    let ids = List.map int_of_nat elems in
+    match Hashtbl.find_opt tbl (List.sort compare ids) with
+    | None -> flags := "MISSCHOOSE" :: !flags; coded elems
+    | Some r -> coded (List.map nat_of_int r.pre)
+let dump_lc_canon t =
+  let b = Buffer.create 256 in
+  let rec go = function
+    | PLeaf idx -> Buffer.add_string b ("L" ^ String.concat "," (List.map string_of_int (List.sort compare (List.map int_of_nat idx))))
+    | PNode (nd, l, r) ->
+      Buffer.add_string b (Printf.sprintf "N[%s;%s](" (g17 (float_of_qc nd.lc_thr)) (String.concat "," (List.map (fun x -> g17 (float_of_qc x)) nd.lc_normal)));
+      go l; Buffer.add_string b ")("; go r; Buffer.add_string b ")" in
+  go t; Buffer.contents b
+let dump_khc_canon t =
+  let b = Buffer.create 256 in
+  let rec go = function
+    | PLeaf idx -> Buffer.add_string b ("L" ^ String.concat "," (List.map string_of_int (List.sort compare (List.map int_of_nat idx))))
+    | PNode (nd, l, r) ->
+      Buffer.add_string b (Printf.sprintf "N[%s;%d;%d;%s](" (g17 (float_of_qc nd.kh_thr)) (int_of_nat nd.kh_pos) (int_of_nat nd.kh_neg) (g17 (float_of_qc nd.kh_inv)));
+      go l; Buffer.add_string b ")("; go r; Buffer.add_string b ")" in
+  go t; Buffer.contents b
+let cutting_accuracy = 25
+
+let rec pnodes = function PLeaf _ -> 1 | PNode (_, l, r) -> 1 + pnodes l + pnodes r
+let rec pnode_list = function PLeaf _ -> [] | PNode (nd, l, r) -> nd :: pnode_list l @ pnode_list r
+
 let () =
   let ic = open_in Sys.argv.(1) in
   let data = ref [] and tree = ref (Leaf []) and n = ref 0 in
+  let kind = ref "kd" and pdata = ref [] and lct = ref None and khct = ref None and kern = ref (lin_k fq) in
   (try
     while true do
       let l = input_line ic in
@@ -93,9 +240,81 @@ let () =
       let toks = List.filter (fun x -> x <> "") (String.split_on_char ' ' main) in
       match toks with
       | [] -> ()
+      | "D" :: knd :: _bucket :: dim :: nn :: cs when knd <> "kd" ->
+        let dim = int_of_string dim in
+        n := int_of_string nn; kind := knd;
+        let cs = Array.of_list (List.map int_of_string cs) in
+        pdata := List.init !n (fun i -> List.init dim (fun d -> qc_of_int cs.(i * dim + d)));
+        kern := (if knd = "khc2" then poly2_k fq (qc_of_int 1) else lin_k fq);
+        let e = String.trim extra in
+        let fields = List.filter (fun x -> x <> "") (String.split_on_char ' ' e) in
+        let ts = List.fold_left (fun acc f -> if String.length f > 6 && String.sub f 0 6 = "ptree=" then String.sub f 6 (String.length f - 6) else acc) "" fields in
+        if ts = "" then failwith "D line without ptree";
+        let (a, b) = parse_ptree knd ts in lct := a; khct := b;
+        let wf, slack, units, nn, perm = (match a, b with
+          | Some t, _ ->
+            pwf_treeb fq (lc_funct fq) (fun nd -> nd.lc_thr) !pdata t, pslack (lc_funct fq) (fun nd -> nd.lc_thr) !pdata t,
+            List.map (fun nd -> (lc_unitb fq nd, float_of_qc (dot fq nd.lc_normal nd.lc_normal))) (pnode_list t), pnodes t,
+            List.sort compare (List.map int_of_nat (pindices t))
+          | _, Some t ->
+            pwf_treeb fq (khc_funct fq !kern !pdata) (fun nd -> nd.kh_thr) !pdata t, pslack (khc_funct fq !kern !pdata) (fun nd -> nd.kh_thr) !pdata t,
+            List.map (fun nd -> (khc_nodeb fq !kern !pdata nd,
+                                 float_of_qc (qmul (qmul nd.kh_inv nd.kh_inv) (kd2 fq !kern (List.nth !pdata (int_of_nat nd.kh_pos)) (List.nth !pdata (int_of_nat nd.kh_neg)))))) (pnode_list t), pnodes t,
+            List.sort compare (List.map int_of_nat (pindices t))
+          | _ -> failwith "no tree") in
+        let pn = List.fold_left (fun acc f -> if String.length f > 5 && String.sub f 0 5 = "pnth=" then String.sub f 5 (String.length f - 5) else acc) "" fields in
+        let built =
+          if pn = "" then "" else begin
+            let tbl, ncalls = parse_pnth pn in
+            let flags = ref [] and used = ref 0 and ftie = ref false in
+            let ca = nat_of_int cutting_accuracy in
+            let dump, mwf, munit = (match knd with
+              | "lc" ->
+                let t = lc_build fq !pdata (make_pchoose tbl flags (lc_coded_choose fq ca !pdata)) (make_poracle tbl flags used ftie) in
+                dump_lc_canon t, pwf_treeb fq (lc_funct fq) (fun nd -> nd.lc_thr) !pdata t,
+                List.for_all (fun nd -> close (float_of_qc (dot fq nd.lc_normal nd.lc_normal)) 1.0) (pnode_list t)
+              | _ ->
+                let t = khc_build fq !kern !pdata (make_pchoose tbl flags (khc_coded_choose fq !kern ca !pdata)) (make_poracle tbl flags used ftie) in
+                dump_khc_canon t, pwf_treeb fq (khc_funct fq !kern !pdata) (fun nd -> nd.kh_thr) !pdata t,
+                List.for_all (fun nd -> close (float_of_qc (qmul (qmul nd.kh_inv nd.kh_inv) (kd2 fq !kern (List.nth !pdata (int_of_nat nd.kh_pos)) (List.nth !pdata (int_of_nat nd.kh_neg))))) 1.0) (pnode_list t)) in
+            Printf.sprintf " built=%s oracle=%s calls=%d/%d ftie=%s modelwf=%s modelunit=%s" dump
+              (if !flags = [] then "ok" else String.concat "," (List.rev !flags)) !used ncalls (if !ftie then "yes" else "no")
+              (if mwf then "WF" else "NOTWF") (if munit then "ok" else "BAD")
+          end in
+        Printf.printf "D n=%d nodes=%d wf=%s slack=%s partition=%s unitok=%d/%d unit=%s%s\n" !n nn (if wf then "WF" else "NOTWF") (g17 (float_of_qc slack))
+          (if perm = List.init !n (fun i -> i) then "ok" else "BAD")
+          (List.length (List.filter fst units)) (List.length units)
+          (if units = [] then "-" else String.concat "," (List.map (fun (_, u) -> g17 u) units)) built
+      | "Q" :: hs when !kind <> "kd" ->
+        let q = List.map (fun h -> qmul (qc_of_int (int_of_string h)) (qc_make (z_of_int 1) (XO XH))) hs in
+        let b = Buffer.create 1024 in
+        let sixteen = qc_of_int 16 in
+        let tr, bounds, qk = (match !lct, !khct with
+          | Some t, _ -> lc_query_trace fq !pdata t q (nat_of_int !n), pbounds fq (lc_funct fq) (fun nd -> nd.lc_thr) q [] t,
+                         (fun k -> lc_query fq !pdata t q (nat_of_int k))
+          | _, Some t -> khc_query_trace fq !kern !pdata t q (nat_of_int !n), pbounds fq (khc_funct fq !kern !pdata) (fun nd -> nd.kh_thr) q [] t,
+                         (fun k -> khc_query fq !kern !pdata t q (nat_of_int k))
+          | _ -> failwith "no tree") in
+        Buffer.add_string b "Q it=";
+        Buffer.add_string b (String.concat ";" (List.map (fun (((d, i), qs), r) ->
+          Printf.sprintf "%s:%d:%d:%s" (str_of_qc (qmul sixteen d)) (int_of_nat i) (int_of_nat qs)
+            (match r with None -> "inf" | Some r -> g17 (float_of_qc r))) tr));
+        Buffer.add_string b " lb="; Buffer.add_string b (String.concat "," (List.map (fun x -> g17 (float_of_qc x)) bounds));
+        let fps = (match !lct, !khct with
+          | Some t, _ -> List.map (fun nd -> qsub (lc_funct fq nd q) nd.lc_thr) (pnode_list t)
+          | _, Some t -> List.map (fun nd -> qsub (khc_funct fq !kern !pdata nd q) nd.kh_thr) (pnode_list t)
+          | _ -> []) in
+        Buffer.add_string b " fp="; Buffer.add_string b (if fps = [] then "-" else String.concat "," (List.map (fun x -> g17 (float_of_qc x)) fps));
+        for k = 1 to !n do
+          if not (!n > 10 && not (k <= 3 || k = !n / 2 || k + 1 >= !n)) then begin
+            Buffer.add_string b (Printf.sprintf " k%d=" k);
+            Buffer.add_string b (String.concat ";" (List.map (fun (d, i) -> Printf.sprintf "%s:%d" (str_of_qc (qmul sixteen d)) (int_of_nat i)) (qk k)))
+          end
+        done;
+        print_endline (Buffer.contents b)
       | "D" :: _kind :: _bucket :: dim :: nn :: cs ->
         let dim = int_of_string dim in
-        n := int_of_string nn;
+        n := int_of_string nn; kind := "kd";
         let cs = Array.of_list (List.map int_of_string cs) in
         data := List.init !n (fun i -> List.init dim (fun d -> z_of_int (2 * cs.(i * dim + d))));
         let e = String.trim extra in
